@@ -203,6 +203,19 @@ class ObRec:
         self.failed_sub = {"goal": str(fs.get("goal"))[:3000], "backend": fs.get("backend")} if fs else None
 
 
+class MetaOb:
+    def __init__(self, d):
+        self.name = self.base = d["name"]
+        self.kind, self.line, self.abstraction = "lemma", None, False
+        self.status = d["status"]
+        self.backend, self.time = "inspection of the supporting obligations", 0.0
+        self.properties, self.owners = [], None
+        self.n_hyp, self.pc = d.get("support", 0), []
+        self.goal = f"every supporting obligation exists and is discharged ({d.get('support')} found; missing {d.get('missing')}; undischarged {d.get('undischarged')})"
+        self.sub = [{"status": "unsat" if d["status"] == "discharged" else "sat", "backend": self.backend, "time": 0.0, "answers": {}}]
+        self.failed_sub = None if d["status"] == "discharged" else {"goal": self.goal, "backend": self.backend}
+
+
 def _worker(args):
     """generate + discharge one target in a forked child (targets are closures: addressed by index into the inherited list)"""
     idx, prop, budget, all_solvers, jobs = args
@@ -288,6 +301,17 @@ def run_check(check, tier, seed):
     results, solve_wall = generate_and_discharge(check, prop, budget, tier == "thorough")
     all_obs = [o for fr in results for o in fr.obligations]
     undecided = {f"{fr.relpath}:{fr.qualname}": fr.error for fr in results if fr.error}
+    meta = getattr(check, "meta_obligations", None)
+    if meta is not None and all_obs:
+        # coverage lemmas over the obligations of this run (e.g. the induction over the type grammar): discharged by inspection of
+        # the named supporting obligations, reported like any other obligation
+        frm = FunctionResult("<lemma>", "coverage")
+        for md in meta(all_obs):
+            o = MetaOb(md)
+            frm.obligations.append(o)
+            all_obs.append(o)
+        frm.paths = len(frm.obligations)
+        results.append(frm)
 
     # ---- 3 vacuity (checked in the workers)
     vac = {}
